@@ -235,6 +235,36 @@ def sequence_trees(tier):
     return out
 
 
+def check_rounding_state(spec, value):
+    """A state whose accumulators carry rounding residue (merged partials that all saw the same non-dyadic value: the
+    merged variance is a few 1e-17 away from zero, on either side): serialisation must reproduce it bit for bit."""
+    import histogrammar as hg
+
+    args = {"spec": spec, "value": value}
+    out = []
+    try:
+        rec = dict(A.DEFAULTS, x=value, y=value)
+        parts = [core.mk(spec, [(rec, 1.0)] * n) for n in (2, 5, 3)]
+        h = parts[0] + parts[1]
+        h += parts[2]
+        for nm, o in (("a+b", parts[0] + parts[1]), ("(a+b)+=c", h), ("((a+b)+=c)*0.5", h * 0.5)):
+            doc = o.toJson()
+            text = json.dumps(doc, allow_nan=False)
+            for how, r in (("fromJson(dict)", hg.Factory.fromJson(json.loads(text))), ("fromJsonString", hg.Factory.fromJsonString(text))):
+                d = C.diff(r.toJson(), doc, tol_keys=())
+                if d:
+                    out.append(core.v_diff(PROP, "rounding", "%s of %s re-serialises differently" % (how, nm), d, r.toJson(), args))
+                    return out
+                d = C.diff((r + parts[2]).toJson(), (o + parts[2]).toJson(), tol_keys=())
+                if d:
+                    out.append(core.v_diff(PROP, "rounding", "reload of %s merges differently from the original" % nm, d,
+                                           (r + parts[2]).toJson(), args))
+                    return out
+    except Exception as e:
+        out.append(core.v_exc(PROP, "rounding", "round trip of a merged state raised", e, args))
+    return out
+
+
 def make_menu(spec, tier):
     recs = A.records(spec, "mid", cap=6 if tier == "quick" else 8)
     events = [(r, 1.0) for r in recs] + [(recs[0], 0.5)]
@@ -281,6 +311,11 @@ def _tree(task):
         pass  # failing operations are reported by C05
 
     st = X.bfs(spec, menu, H, P, on_state, on_error)
+    if any(n["t"] in ("Deviate", "Average", "Sum") for _, _, n in S.node_ids(spec)) and not has_transform(spec):
+        for value in (0.3, 0.1, 1.0 / 3.0, 1e-3, 123456.789):
+            acc.add(check_rounding_state(spec, value))
+            acc.n("rounding_states", 3)
+            acc.n("roundtrips", 6)
     if not has_transform(spec):
         for ev in menu["events"][:4]:
             for how in ("fill(w=inf)", "fill;fill(w=inf)", "fill;*inf"):
@@ -368,6 +403,8 @@ def run(tier, seed):
 def replay(driver, args):
     if driver == "sequence":
         return check_doc_sequence(args["i"], args["tier"], args["upto"])[0]
+    if driver == "rounding":
+        return check_rounding_state(args["spec"], args["value"])
     spec = args["spec"]
     if driver == "sequence":
         return check_doc_sequence(args["i"], args["tier"], args["upto"])[0]
